@@ -131,6 +131,23 @@ def run(ctx):
         ok = ok and any(dn["k"] == "VarDecl" and kids(dn) and "second" in render(kids(dn)[0], False) for dn in defs)
         R.ob("C25-R4", ok, m.q, "merge:assign right value", m.site(n), "non-recursive case stores the right-hand side's value")
     R.ob("C25-R4", len(asg) == 2, m.q, "merge:assign arms", "%s:%d" % (m.relfile, m.d["line"]), "%d assignment arms (object-over-non-object, and plain)" % len(asg))
+    pe = [f for f in prog.fns(J + "operator+=") if len(f.d["params"]) == 1 and "occa::json" in f.tname(f.d["params"][0]["t"])]
+    if len(pe) != 1:
+        raise AnalysisBroken("json::operator+=(const json&) not found")
+    pe = pe[0]
+    pcfg = pe.cfg
+    PIN2 = pcfg.facts_in()
+    sw_ = [n for n in pe.walk() if n["k"] == "SwitchStmt"]
+    und = None
+    if sw_:
+        fs_ = {(noid(k).replace(" ", ""), pol) for (k, pol) in pcfg.facts_at(kids(sw_[0])[0], PIN2)}
+        und = ("(this->type==occa::json::none_)", False) in fs_
+    asg_ = [c for c in pe.walk() if c["k"] == "CXXOperatorCallExpr" and c.get("op") == "=" and callee(c) == J + "operator=" and
+            any(pol and noid(k).replace(" ", "") == "(this->type==occa::json::none_)" for (k, pol) in pcfg.facts_at(c, PIN2))]
+    R.ob("C25-R4", bool(und) and bool(asg_), pe.q, "+= on an undefined value assigns and does not run the typed merge", pe.site(asg_[0]) if asg_ else "%s:%d" % (pe.relfile, pe.d["line"]),
+         "under type == none_ the right-hand side is assigned and the switch is not reached" if und and asg_ else
+         "an undefined left side only takes over the type and then runs the typed merge: `json a; a += [1,2]` gives [[1,2]], `a += true` gives the number 1")
+
     # ---- R5: a primitive assignment changes `type` but keeps the old children map (jsonValue_t is a plain struct), so the map may only be
     #          consulted where the node is known to be an object -------------------------------------------------------------------------
     for f in prog.funcs.values():
